@@ -134,8 +134,13 @@ Definition row_out_eqb (a b : option (list string * option string)) : bool :=
 (* what the model computes *)
 Definition model_C07 (x : c07_in) : c07_out :=
   let tmpl := make_reverse (ci_rule x) (ci_prefix x) in
+  let ic := rule_ic (ci_rule x) (ci_ic x) in
+  let m := match rule_pat (ci_rule x) with         (* = rule_match (ci_rule x) (ci_ic x) *)
+           | Some p => pmatch p ic
+           | None => fun _ => None
+           end in
   C07Out tmpl (format_template_opt tmpl (ci_fkey x))
-    (map (fun row => match rule_match (ci_rule x) (ci_ic x) row with
+    (map (fun row => match m row with
                      | Some key => Some (key, format_template_opt tmpl key)
                      | None => None
                      end) (ci_rows x)).
